@@ -123,6 +123,12 @@ var editsDefects = []editsDefect{
 	{name: "rdt-closid-dotdot", minV: "0.7.0", mut: func(e obj) { e["intelRdt"] = obj{"closID": ".."} }},
 	{name: "rdt-closid-slash", minV: "0.7.0", mut: func(e obj) { e["intelRdt"] = obj{"closID": "a/b"} }},
 	{name: "rdt-closid-newline", minV: "0.7.0", mut: func(e obj) { e["intelRdt"] = obj{"closID": "a\nb"} }},
+	{name: "rdt-closid-slash-first", minV: "0.7.0", mut: func(e obj) { e["intelRdt"] = obj{"closID": "/ab"} }},
+	{name: "rdt-closid-slash-last", minV: "0.7.0", mut: func(e obj) { e["intelRdt"] = obj{"closID": "ab/"} }},
+	{name: "rdt-closid-slash-only", minV: "0.7.0", mut: func(e obj) { e["intelRdt"] = obj{"closID": "/"} }},
+	{name: "rdt-closid-newline-first", minV: "0.7.0", mut: func(e obj) { e["intelRdt"] = obj{"closID": "\nab"} }},
+	{name: "rdt-closid-newline-last", minV: "0.7.0", mut: func(e obj) { e["intelRdt"] = obj{"closID": "ab\n"} }},
+	{name: "rdt-closid-newline-only", minV: "0.7.0", mut: func(e obj) { e["intelRdt"] = obj{"closID": "\n"} }},
 	{name: "rdt-closid-4096", minV: "0.7.0", mut: func(e obj) { e["intelRdt"] = obj{"closID": strN(4096)} }},
 	{name: "rdt-unknown-member", minV: "0.7.0", mut: func(e obj) { e["intelRdt"] = obj{"closID": "ok", "verifUnknown": num("1")} }},
 	{name: "rdt-scalar-for-object", minV: "0.7.0", mut: func(e obj) { e["intelRdt"] = "clos" }},
